@@ -170,7 +170,7 @@ class PublishOnce(Obligation):
     id = 'C08.g-publish-hands-over-once'
     desc = ('control-flow graph of the Publish handler coroutine (MIR): Topic::publish_messages is called at exactly one site and that site lies on no cycle '
             '(the poll loop of the await does not contain the call that creates the future): one Publish request of any size = one PublishMessages request')
-    bounds = {'request size': 'any (structural)', 'scope': 'the handler coroutine itself; helpers it calls are followed one level if they call publish_messages'}
+    bounds = {'request size': 'any (structural)', 'scope': 'the handler coroutine itself; if the call lives in a helper the obligation is inconclusive'}
 
     def body(self, ip, p):
         dump = ip.ctx.dump
